@@ -7,6 +7,9 @@ Props/C07.v are decided by the kernel on that table.
 Layer (b), tie H: random molecules / structures / ensembles built through the public API, written by the real
 dumps_mol2 and read back by the real loads_mol2; text and read-back fields are compared with the Coq model
 (Model/Mol2Text.v, the definitions the theorems are about) inside Coq; a Python oracle judges the property.
+Families: built objects (gen_cases), write -> edit -> write again (gen_rewrite_cases), and objects that do NOT own
+their atoms (gen_view_cases: Substructure / Conformer views in any atom order, atoms adopted by a second structure,
+clones and concatenations of these; signatures end in ":written=<how>").
 """
 import os, sys, json, math, itertools
 from decimal import Decimal, ROUND_HALF_EVEN
@@ -589,7 +592,7 @@ def view_eval(T, how, base_obj, base_desc, keep):
             coords += dsc["confs"][0]["coords"]
             off += len(dsc["atoms"])
         return res, {"kind": "struct", "route": 0, "name": None, "atoms": atoms, "bonds": bonds,
-                     "confs": [{"coords": coords, "charges": [(0.0).hex()] * off}]}, "concat(" + ",".join(p[2] for p in parts) + ")"
+                     "confs": [{"coords": coords, "charges": [(0.0).hex()] * off}]}, "concat"
     obj, dsc, tag = view_eval(T, how["src"], base_obj, base_desc, keep)
     inner = "" if tag == "owner" else "(" + tag.split("(")[0] + ")"
     if op == "conformer":
@@ -851,7 +854,25 @@ def cq_lines(text):
 def case_term(T, d, text, back):
     notes = []
     k = d["kind"]
-    if k in ("mol", "struct"):
+    if k in ("mol", "struct") and d["name"] is None:
+        # the written object has no name of its own (a view): the model is told the name it was written under
+        d = dict(d, name=(text.split("\n") + ["", "", ""])[2].strip())
+    mdl = d.get("model")
+    if mdl and mdl["kind"] == "view":
+        # Substructure: the model derives the written object from the parent and the selection (Model/Mol2Text.v sub_view)
+        wq = k == "mol"
+        par = dict(mdl["parent"], name=mdl["parent"]["name"] or "")
+        sel = "[" + "; ".join(str(i) for i in mdl["sel"]) + "]"
+        t = (f"(CView {'true' if wq else 'false'} {cq_s(d['name'])} {cq_input_mol(T, par, wq)} {sel}\n  {cq_lines(text)}\n"
+             f"  {cq_back_mol(T, back, wq, notes)})")
+    elif mdl and mdl["kind"] == "conf":
+        e = mdl["ens"]
+        atoms = [f"(({a['e']}, {a['t']}, {a['g']}), {cq_s(a['label'] or '')})" for a in e["atoms"]]
+        bonds = [f"(rbond {i} {j} {bt})" for i, j, bt in e["bonds"]]
+        confs = [cq_list(cq_cpos(c, i) for i in range(len(e["atoms"]))) for c in e["confs"]]
+        inp = f"(rens {cq_s(e['name'])} {cq_list(atoms)} {cq_list(bonds)} {cq_list(confs)})"
+        t = f"(CConf {inp} {mdl['conf']}\n  {cq_lines(text)}\n  {cq_back_mol(T, back, True, notes)})"
+    elif k in ("mol", "struct"):
         wq = k == "mol"
         t = f"(CMol {'true' if wq else 'false'} {cq_input_mol(T, d, wq)}\n  {cq_lines(text)}\n  {cq_back_mol(T, back, wq, notes)})"
     elif k == "ens":
@@ -1102,7 +1123,7 @@ def case_key(d):
 
 
 def n_atoms_of(d):
-    if d["kind"] == "rewrite":
+    if d["kind"] in ("rewrite", "view"):
         return len(d["base"]["atoms"])
     return sum(len(m["atoms"]) for m in d["mols"]) if d["kind"] == "all" else len(d["atoms"])
 
@@ -1126,7 +1147,9 @@ def zero_conformer_probe(T):
 
 def run(ctx, rep):
     rep.rule = ("layer (a): every (element x atom type x geometry) triple and every bond type, exhaustively; layer (b): random "
-                "molecules / structures / ensembles / multi-molecule texts through dumps_mol2 + loads_mol2; a case is "
+                "molecules / structures / ensembles / multi-molecule texts through dumps_mol2 + loads_mol2, write -> edit -> write "
+                "again, and objects that do not own their atoms (Substructure and Conformer views, atoms adopted by a second "
+                "structure, clones and concatenations of these); a case is "
                 "non-trivial when it has at least one atom; distinct by its full description")
     rep.trusted += ["T-emitter harness/c07.py (tabulate/gen_types: CPython executing Atom.get_mol2_type, Atom.set_mol2_type, "
                     "Bond.get_mol2_type, Bond.set_mol2_type over their whole finite domain)",
@@ -1160,7 +1183,8 @@ def run(ctx, rep):
 
     # ---- tie H
     n_cases = 6000 if ctx.thorough else 600
-    descs = gen_cases(ctx, T, n_cases) + gen_rewrite_cases(ctx, T, 1000 if ctx.thorough else 120)
+    descs = (gen_cases(ctx, T, n_cases) + gen_rewrite_cases(ctx, T, 1000 if ctx.thorough else 120)
+             + gen_view_cases(ctx, T, 1800 if ctx.thorough else 180))
     terms, kept = [], []
     for d in descs:
         oplog = []
@@ -1173,6 +1197,13 @@ def run(ctx, rep):
         rep.count("atoms:0" if n_atoms_of(d) == 0 else "atoms:>0")
         if d["kind"] == "rewrite":
             rep.count("rewrite:" + ("read-then-edit" if d["via_read"] else "built-then-edit"))
+        elif d["kind"] == "view":
+            rep.count("written:" + view_tag(d["how"]))
+            if d_eff is not None:
+                sel = (d_eff.get("model") or {}).get("sel")
+                if sel is not None:
+                    rep.count("view-selection:" + ("prefix-of-parent" if sel == list(range(len(sel))) else "not-a-prefix"))
+                rep.count("view-bonds:0" if not d_eff.get("bonds") else "view-bonds:>0")
         elif d["kind"] != "all":
             rep.count("bonds:0" if not d["bonds"] else "bonds:>0")
             for c in d["confs"]:
@@ -1194,7 +1225,7 @@ def run(ctx, rep):
                 rep.count("note:" + nnote.split(":")[0])
     used = {"e": set(), "t": set(), "g": set(), "b": set()}
     for d in descs:
-        for m in (d["mols"] if d["kind"] == "all" else [d["base"]] if d["kind"] == "rewrite" else [d]):
+        for m in (d["mols"] if d["kind"] == "all" else [d["base"]] if d["kind"] in ("rewrite", "view") else [d]):
             for a in m["atoms"]:
                 used["e"].add(a["e"]); used["t"].add(a["t"]); used["g"].add(a["g"])
             for b in m["bonds"]:
@@ -1218,7 +1249,7 @@ def run(ctx, rep):
             # the oracle already judged every case; widen around the mismatching ones before giving up
             hit = found
             for i in bad[:20]:
-                for d2 in ([] if kept[i]["kind"] in ("pyws", "rewrite") else neighbourhood(ctx, kept[i])):
+                for d2 in ([] if kept[i]["kind"] in ("pyws", "rewrite", "view") else neighbourhood(ctx, kept[i])):
                     for sig, what in judge(T, d2)[0]:
                         hit = hit or sig not in known
                         rep.violate(sig, what, {"kind": "case", "desc": d2})
